@@ -2,6 +2,7 @@ package c04r
 
 import (
 	"crypto"
+	"crypto/x509"
 	"encoding/base64"
 	"encoding/json"
 	"fmt"
@@ -368,6 +369,27 @@ func (b *Bed) jwt(sub, shape string) (string, error) {
 	}
 
 	payload, _ := json.Marshal(claims)
+
+	if shape == "hs256" {
+		// a well-formed token with a symmetric algorithm, keyed by public material: credentials, and bad ones
+		der, err := x509.MarshalPKIXPublicKey(b.ks.Priv[key].(crypto.Signer).Public()) //nolint:forcetypeassert
+		if err != nil {
+			return "", err
+		}
+
+		hs, err := jose.NewSigner(jose.SigningKey{Algorithm: jose.HS256, Key: der},
+			(&jose.SignerOptions{}).WithType("JWT").WithHeader("kid", keyID))
+		if err != nil {
+			return "", err
+		}
+
+		obj, err := hs.Sign(payload)
+		if err != nil {
+			return "", err
+		}
+
+		return obj.CompactSerialize()
+	}
 
 	signer, err := jose.NewSigner(jose.SigningKey{Algorithm: jose.ES256, Key: b.ks.Priv[key].(crypto.Signer)},
 		(&jose.SignerOptions{}).WithType("JWT").WithHeader("kid", keyID))
